@@ -5,9 +5,8 @@ import Bridge.Abs
 import Bridge.Diagram
 namespace Pta
 
-/-- no identifier is listed by two entries that carry different layer names -/
-def LayerMap.consistent (m : LayerMap) : Bool :=
-  m.all fun l1 => m.all fun l2 => l1.1 == l2.1 || !(l1.2.any fun id => l2.2.contains id)
+/- `LayerMap.consistent` (no identifier is listed by two entries that carry different layer names) now lives in
+   `PtaModel/Layer.lean`: the repaired `LayerMapping.__init__` checks it. -/
 
 /-- the layer mapping with EVERY regex filter expanded over the modules (the mapping a rule really uses,
     `updateLayerMap`, expands only the regexes that occur in that rule, so it lists a subset of these identifiers) -/
@@ -37,7 +36,7 @@ def DVerdict.items : DVerdict → List Item
   | _ => []
 
 /-- the aggregation step of `PumlParser.parse` (alias unification, grouping, module list), given the per-line results
-    `lineModules` / `lineDependency`; `pumlParse` is `pumlBody` followed by this (`C15.pumlParse_aggregate`) -/
+    `lineModules` / `lineDependency`, AFTER the alias check (`pumlUnify` below is check + aggregation) -/
 def pumlAggregate (modules : List PModule) (rawDeps : List (Str × Str)) : Parsed' :=
   let aliases := modules.filterMap fun m => m.alias.map fun a => (a, m.name)
   let unify (x : Str) : Str := match (aliases.filter (·.1 == x)).getLast? with | some p => p.2 | none => x
@@ -46,14 +45,35 @@ def pumlAggregate (modules : List PModule) (rawDeps : List (Str × Str)) : Parse
   let all := dedup (modules.map (·.name) ++ unified.map (·.1) ++ unified.flatMap (·.2))
   ⟨all, unified⟩
 
-/-- no alias is declared twice with different names -/
-def aliasesConsistent (modules : List PModule) : Bool :=
-  modules.all fun m1 => modules.all fun m2 =>
-    match m1.alias, m2.alias with
-    | some a1, some a2 => a1 != a2 || m1.name == m2.name
-    | _, _ => true
+-- `aliasesConsistent` (no alias is declared twice with different names) is part of the model now: PtaModel/Puml.lean
+
+/-- the whole of `PumlParser._unify` on the per-line results: the alias check of `_get_modules_by_alias`, then the
+    aggregation; `pumlParse` is `pumlBody` followed by this (`C15.pumlParse_aggregate`) -/
+def pumlUnify (modules : List PModule) (rawDeps : List (Str × Str)) : Except ErrKind Parsed' :=
+  if aliasesConsistent modules then .ok (pumlAggregate modules rawDeps) else .error .pumlParsingError
 
 /-- the diagram says: `k` depends on `v` -/
 def Parsed'.hasDep (p : Parsed') (k v : Str) : Bool := p.dependencies.any fun e => e.1 == k && e.2.contains v
+
+/-- two parse outcomes agree up to order: both are the parsing error, or both succeed with the same module SET and the
+    same dependency RELATION -/
+def SameDiagram (x y : Except ErrKind Parsed') : Prop :=
+  match x, y with
+  | .ok p, .ok q => (∀ m, m ∈ p.modules ↔ m ∈ q.modules) ∧
+      (∀ k v, p.hasDep k v = q.hasDep k v)
+  | .error e, .error e' => e = .pumlParsingError ∧ e' = .pumlParsingError
+  | _, _ => False
+
+/-- Bool / Option valued views of a parse outcome, so that `decide` can inspect concrete instances -/
+def isParsingError : Except ErrKind Parsed' → Bool
+  | .error .pumlParsingError => true
+  | _ => false
+def okModules : Except ErrKind Parsed' → Option (List Str)
+  | .ok p => some p.modules
+  | .error _ => none
+
+/-- a diagram file given by its raw lines: noise, start tag, the lines joined by newlines, end tag, noise -/
+def linesText (noise1 : Str) (lines : List Str) (noise2 : Str) : Str :=
+  noise1 ++ "@startuml".toList ++ '\n' :: joinWith ['\n'] lines ++ '\n' :: "@enduml".toList ++ noise2
 
 end Pta
